@@ -645,6 +645,8 @@ class Driver:
         rc = self.L.jls_rd_sample_id_to_timestamp(self.rd, op["sig"], op["id"], ct.byref(v))
         self.emit({"e": "I2T", "sig": op["sig"], "id": _clip(op["id"] - self._tsrel(s)), "rc": rc,
                    "res": _clip(v.value - s["tbase"]) if rc == 0 else 0})
+        if rc == 0 and op.get("then_t2i"):
+            self.op_t2i({"sig": op["sig"], "t": v.value})
 
     def op_t2i(self, op):
         s = self.sig(op["sig"])
